@@ -196,6 +196,24 @@ func processedBeforeReturn(p *core.Program, fn *ssa.Function, at ssa.Instruction
 	if core.IsNilConst(root) {
 		return true, "nil"
 	}
+	// a merge (the answer of an expanded helper that returns the clone or nil): every alternative
+	// must be processed
+	if ph, ok := root.(*ssa.Phi); ok && len(ph.Edges) > 0 && len(ph.Edges) <= 6 {
+		all := true
+		for _, e := range ph.Edges {
+			if e == root {
+				all = false
+				break
+			}
+			if ok2, _ := processedBeforeReturn(p, fn, at, e, procs, nil, procKeys...); !ok2 {
+				all = false
+				break
+			}
+		}
+		if all {
+			return true, "every alternative of the merge is processed"
+		}
+	}
 	if call, ok := root.(*ssa.Call); ok {
 		if f := call.Call.StaticCallee(); f != nil && procs[f] {
 			return true, "result of " + core.ShortKey(f) + " (processes everything it returns)"
